@@ -783,7 +783,53 @@ func (d *Ledger) boundarySetup() bool {
 	return false
 }
 
+// divergedPair: two holders of the same (token, nonce) whose stored metadata copies differ (one of them added URIs or updated the
+// attributes of its own copy) while the hash is the same: a transfer between them merges into a holding with another copy.
+func (d *Ledger) divergedPair() (from, to string, tok []byte, nonce uint64, ok bool) {
+	hs := d.nftHoldings()
+	meta := func(h holding) *esdt.MetaData {
+		ai := d.W.Info(h.acct)
+		acc := d.W.Shards[ai.Shard].Peek(ai.Bytes)
+		if acc == nil {
+			return nil
+		}
+		e, ok := world.DecodeEntry(acc.Storage["ELRONDesdt"+string(h.key)])
+		if !ok {
+			return nil
+		}
+		return e.TokenMetaData
+	}
+	type pr struct{ a, b holding }
+	var l []pr
+	for _, a := range hs {
+		for _, b := range hs {
+			if a.acct == b.acct || !bytes.Equal(a.key, b.key) || a.val.Cmp(d.Scale) < 0 {
+				continue
+			}
+			ma, mb := meta(a), meta(b)
+			if ma != nil && mb != nil && bytes.Equal(ma.Hash, mb.Hash) && !ma.Equal(mb) {
+				l = append(l, pr{a, b})
+			}
+		}
+	}
+	if len(l) == 0 {
+		return
+	}
+	x := l[d.R.Intn(len(l))]
+	return x.a.acct, x.b.acct, x.a.tok, x.a.nonce, true
+}
+
 func (d *Ledger) actNFTTransfer() {
+	if from, to, tok, nonce, ok := d.divergedPair(); ok && d.chance(45) {
+		c := d.call("ESDTNFTTransfer", from, from, tok, nb(nonce), d.amt(1), d.W.Addr(to))
+		if d.chance(40) {
+			c = d.call("MultiESDTNFTTransfer", from, from, d.W.Addr(to), nb(1), tok, nb(nonce), d.amt(1))
+		}
+		c.RAE = false
+		d.T.Stats["diverged-merge"]++
+		d.record("exec", d.shardOfName(from), c)
+		return
+	}
 	if from, to, tok, nonce, ok := d.boundaryMerge(); ok && d.chance(50) {
 		c := d.call("ESDTNFTTransfer", from, from, tok, nb(nonce), d.amt(1), d.W.Addr(to))
 		c.RAE = false
@@ -1123,7 +1169,59 @@ func (d *Ledger) actCreate() {
 	d.record("exec", d.shardOfName(a), c)
 }
 
+// actDiverge makes two holders' copies of one semi-fungible token differ: a holder with at least two units gives one away and then
+// adds a URI to (or updates the attributes of) the copy it keeps; the role is granted first if nobody may.
+func (d *Ledger) actDiverge() bool {
+	for _, h := range d.nftHoldings() {
+		if d.q(h.val) < 2 || bytes.Equal(h.tok, d.Dup) || d.W.Info(h.acct).Kind == "junk" {
+			continue
+		}
+		if !d.chance(50) {
+			continue
+		}
+		b := d.otherAcct(h.acct)
+		if d.W.Info(b).Kind != "user" {
+			continue
+		}
+		acc := d.P.Acct(d.W.Shards[d.shardOfName(h.acct)].Peek(d.W.Addr(h.acct)))
+		role, fn := "ESDTRoleNFTAddURI", "ESDTNFTAddURI"
+		if d.chance(50) {
+			role, fn = "ESDTRoleNFTUpdateAttributes", "ESDTNFTUpdateAttributes"
+		}
+		has := false
+		for _, r := range acc.Roles[fmt.Sprintf("%x", h.tok)] {
+			if r == fmt.Sprintf("%x", role) {
+				has = true
+			}
+		}
+		if !has {
+			c := d.call("ESDTSetRole", "esdtsc", h.acct, h.tok, []byte(role))
+			c.Gas = 600000
+			if r := d.record("exec", d.shardOfName(h.acct), c); r.Res != "ok" {
+				return true
+			}
+		}
+		t := d.call("ESDTNFTTransfer", h.acct, h.acct, h.tok, nb(h.nonce), d.amt(1), d.W.Addr(b))
+		t.RAE, t.Gas = false, 600000
+		d.record("exec", d.shardOfName(h.acct), t)
+		var c *world.Call
+		if fn == "ESDTNFTAddURI" {
+			c = d.call(fn, h.acct, h.acct, h.tok, nb(h.nonce), []byte("uri-late"))
+		} else {
+			c = d.call(fn, h.acct, h.acct, h.tok, nb(h.nonce), []byte("attr-late"))
+		}
+		c.RAE, c.Gas = false, 600000
+		d.record("exec", d.shardOfName(h.acct), c)
+		d.T.Stats["diverge"]++
+		return true
+	}
+	return false
+}
+
 func (d *Ledger) actNFTRoleOp() {
+	if d.chance(25) && d.actDiverge() {
+		return
+	}
 	fns := []string{"ESDTNFTAddQuantity", "ESDTNFTBurn", "ESDTNFTAddURI", "ESDTNFTUpdateAttributes"}
 	roles := []string{"ESDTRoleNFTAddQuantity", "ESDTRoleNFTBurn", "ESDTRoleNFTAddURI", "ESDTRoleNFTUpdateAttributes"}
 	i := d.R.Intn(4)
@@ -1141,10 +1239,17 @@ func (d *Ledger) actNFTRoleOp() {
 	}
 	nonce := uint64(1 + d.R.Intn(3))
 	have := int64(0)
-	for _, h := range d.nftHoldings() {
+	all := d.nftHoldings()
+	for _, h := range all {
 		if h.acct == a && bytes.Equal(h.tok, tok) {
 			nonce, have = h.nonce, d.q(h.val)
-			if d.chance(60) {
+			shared := false
+			for _, o := range all {
+				if o.acct != a && bytes.Equal(o.key, h.key) {
+					shared = true // somebody else holds a copy of this one: changing ours makes the copies diverge
+				}
+			}
+			if d.chance(60) || (shared && d.chance(80)) {
 				break
 			}
 		}
